@@ -227,7 +227,7 @@ UNIT = dict(
     harness=HARNESS,
     harnesses=[
         dict(name="maintenance_exactly_one_place_0_ready_1_parked", tier="thorough", obligation="MempoolInner::run_maintenance::ensures#exactly-one-place+no-used-nonce-remains+ready-queue-consecutive-and-affordable+parked-limit[0 ready,1 parked]", bounded="one account, exactly 0 ready and 1 parked transactions, single-asset 16-bit costs, nonces < 16, parked limit 3"),
-        dict(name="maintenance_exactly_one_place_0_ready_2_parked", tier="thorough", obligation="MempoolInner::run_maintenance::ensures#exactly-one-place+no-used-nonce-remains+ready-queue-consecutive-and-affordable+parked-limit[0 ready,2 parked]", bounded="one account, exactly 0 ready and 2 parked transactions, single-asset 16-bit costs, nonces < 16, parked limit 3"),
+        dict(name="maintenance_exactly_one_place_0_ready_2_parked", obligation="MempoolInner::run_maintenance::ensures#exactly-one-place+no-used-nonce-remains+ready-queue-consecutive-and-affordable+parked-limit[0 ready,2 parked]", bounded="one account, exactly 0 ready and 2 parked transactions, single-asset 16-bit costs, nonces < 16, parked limit 3"),
         dict(name="maintenance_exactly_one_place_1_ready_0_parked", tier="thorough", obligation="MempoolInner::run_maintenance::ensures#exactly-one-place+no-used-nonce-remains+ready-queue-consecutive-and-affordable+parked-limit[1 ready,0 parked]", bounded="one account, exactly 1 ready and 0 parked transactions, single-asset 16-bit costs, nonces < 16, parked limit 3"),
         dict(name="maintenance_exactly_one_place_1_ready_1_parked", obligation="MempoolInner::run_maintenance::ensures#exactly-one-place+no-used-nonce-remains+ready-queue-consecutive-and-affordable+parked-limit[1 ready,1 parked]", bounded="one account, exactly 1 ready and 1 parked transactions, single-asset 16-bit costs, nonces < 16, parked limit 3"),
         dict(name="maintenance_exactly_one_place_1_ready_2_parked", obligation="MempoolInner::run_maintenance::ensures#exactly-one-place+no-used-nonce-remains+ready-queue-consecutive-and-affordable+parked-limit[1 ready,2 parked]", bounded="one account, exactly 1 ready and 2 parked transactions, single-asset 16-bit costs, nonces < 16, parked limit 3"),
